@@ -93,6 +93,7 @@ package contactql
 
 //@ func dateComparison
 //@   nopanic
+//@   probe delta := instant(objectVal) - sp_dayStart(queryVal)
 //@   requires op == OpEqual || op == OpNotEqual || op == OpGreaterThan || op == OpGreaterThanOrEqual || op == OpLessThan || op == OpLessThanOrEqual
 //@   ensures [eq] op == OpEqual ==> (result <==> (sp_dayStart(queryVal) <= instant(objectVal) && instant(objectVal) < sp_dayStart(queryVal) + 86400000000000))
 //@   ensures [ne] op == OpNotEqual ==> (result <==> !(sp_dayStart(queryVal) <= instant(objectVal) && instant(objectVal) < sp_dayStart(queryVal) + 86400000000000))
